@@ -76,11 +76,17 @@ def extract():
     facts = {}
     # --- next_packet: the switch over the link type
     np = body_after(tail, r"PtrPacket\s+BaseSniffer::next_packet\s*\(\s*\)\s*\{")
-    m = re.search(r"if\s*\(\s*extract_raw_\s*\)\s*\{\s*handler\s*=\s*([^;]+);", np)
+    # the handler selection may sit in next_packet itself or in a helper it calls: look for it in the whole file, in
+    # either form (`handler = &f;` / `return &f;`).  Nothing is guessed: what is not found is emitted as unknown / empty
+    # and the table theorems of Props/C17 fail, which sends the check to its search step.
+    m = re.search(r"if\s*\(\s*extract_raw_\s*\)\s*\{\s*(?:handler\s*=|return)\s*([^;]+);", tail)
     facts["extract_raw"] = handler_kind(m.group(1)) if m else '.unknown "?"'
-    sw = body_after(np, r"switch\s*\(\s*iface_type\s*\)\s*\{")
+    try:
+        sw = body_after(tail, r"switch\s*\(\s*(?:iface_type|pcap_datalink\s*\(\s*handle_\s*\))\s*\)\s*\{")
+    except RuntimeError:
+        sw = ""
     table, pending = [], []
-    for tok in re.finditer(r"case\s+(-?\d+)\s*:|default\s*:|handler\s*=\s*([^;]+);|throw\s+(\w+)\s*\(\s*\)\s*;", sw):
+    for tok in re.finditer(r"case\s+(-?\d+)\s*:|default\s*:|(?:handler\s*=|return)\s*(&[^;]+);|throw\s+(\w+)\s*\(\s*\)\s*;", sw):
         if tok.group(1) is not None:
             pending.append(int(tok.group(1)))
         elif tok.group(2) is not None:
